@@ -615,6 +615,22 @@ structure CSBlock where
   armorEnd : BodyEnd
   rest : Bytes
 
+/-- the last part of `clearsign.Decode`: find the END marker of the armored signature, take the
+    trailing CR/LFs, and hand that span to `armor.Decode`; `rest` starts at the signature's BEGIN line -/
+def csArmor (rest : Bytes) : Option (Bytes × Hdr × Bytes × BodyEnd × Bytes) :=
+  match indexOf csEnd rest with
+  | none => none
+  | some i =>
+    let j := i + csEnd.length
+    let tail := rest.drop j
+    let k := (tail.takeWhile (fun b => b == CR || b == LF)).length
+    let armored := rest.take (j + k)
+    match findBlock (.skip false) armored with
+    | none => none
+    | some (ty, m, brest) =>
+      let b := readBody brest
+      some (ty, m, b.1, b.2, tail.drop k)
+
 /-- `clearsign.Decode`: `none` = `(nil, data)` -/
 def csDecode (data : Bytes) : Option CSBlock :=
   let start := LF :: csStart
@@ -632,18 +648,9 @@ def csDecode (data : Bytes) : Option CSBlock :=
       match csText rest with
       | none => none
       | some (ls, rest) =>
-        match indexOf csEnd rest with
+        match csArmor rest with
         | none => none
-        | some i =>
-          let j := i + csEnd.length
-          let tail := rest.drop j
-          let k := (tail.takeWhile (fun b => b == CR || b == LF)).length
-          let armored := rest.take (j + k)
-          match findBlock (.skip false) armored with
-          | none => none
-          | some (ty, m, brest) =>
-            let b := readBody brest
-            some ⟨hs, plainText ls, signedBytes ls, ty, m, b.1, b.2, tail.drop k⟩
+        | some (ty, m, body, e, rest') => some ⟨hs, plainText ls, signedBytes ls, ty, m, body, e, rest'⟩
 
 end XC.C46
 
